@@ -240,13 +240,18 @@ prop("C07", level="exploration",
 
 prop("C01", level="exploration",
      stages=[dict(pkg="fullstack", test="TestC01", sub="adversary", race=True, vary_gomaxprocs=True,
-                  cases=dict(quick=400, thorough=6000), timeout=3600)],
+                  cases=dict(quick=400, thorough=6000), timeout=3600),
+             # data streamed at a request whose loader is offline (paused) must not surface under another link later
+             dict(pkg="fullstack", test="TestC01Stale", sub="stale", race=True, vary_gomaxprocs=True,
+                  cases=dict(quick=200, thorough=3000), timeout=3600)],
      technique="runtime monitoring: online hash monitor on every store commit + offline subsequence check of delivered nodes against the reference traversal of the true DAG, under a seeded man-in-the-middle adversary and a fully scripted raw responder; process survival; Go race detector",
      level_text=("A real requestor (random local subset of the true DAG) talks to (a) a real responder whose messages are rewritten by a seeded "
                  "man-in-the-middle applying 16 mutation operators (reorder/duplicate/drop/insert/substitute metadata, flipped actions, dropped, foreign, "
                  "forged and unrequested blocks, contradictory statuses, other request ids, replays, duplicates, truncation, blocks moved to later "
                  "messages) or (b) a raw peer emitting generated response streams. Every store commit must hash to its link and be a block the true "
-                 "traversal loads; delivered nodes must be an order-preserving subsequence of the true traversal's visits; the process must survive."),
+                 "traversal loads; delivered nodes must be an order-preserving subsequence of the true traversal's visits; the process must survive. "
+                 "Stage stale: a scripted responder keeps streaming blocks (the rest of the DAG and foreign blocks) at a request that the requestor has paused, then answers a second request "
+                 "with links marked present but no data; nothing may be stored or delivered for links whose data was never sent, and every commit must hash to its link."),
      level_note="Completeness is not demanded here (C02 does that); a request left waiting by a truncated stream is cancelled by the harness and soundness is still decided.",
      rule=("One evaluation = one (DAG, selector, requestor store, adversary mode, mutation seed) execution. Non-trivial = at least one mutation or "
            "scripted message was actually applied while the request was live; distinct by case. counters mutation:* give the number of applications "
